@@ -338,6 +338,13 @@ func c15RunPre(f world.Fork, op byte, static bool) (sig, detail string) {
 	if static {
 		entry = "staticcall"
 	}
+	// first an EVM of the same fork that opted into the two EIPs (whatever it does with the program is not judged
+	// here): the plain EVM built afterwards must still refuse the bytes
+	opt := gen.StdCase(f, p.Bytes(), entry, 100000)
+	opt.ExtraEips = []int{1153, 5656}
+	if o := world.NewA(opt, world.AOpts{}).Invoke(opt); o.Panic != "" {
+		return "pre:panic", "with ExtraEips [1153 5656]: " + o.Panic
+	}
 	cs := gen.StdCase(f, p.Bytes(), entry, 100000)
 	obs := world.NewA(cs, world.AOpts{}).Invoke(cs)
 	if obs.Panic != "" {
@@ -371,7 +378,7 @@ func init() {
 		ID:        "C15",
 		Level:     "model_checking",
 		Technique: "bounded exhaustive enumeration of transient-storage programs (all call trees with <= B actions) executed on the real interpreter under Cancun rules and compared step by step with upstream go-ethereum v1.12.0 running EIP-1153 at its own opcode bytes; complete product of MCOPY operands x memory sizes x gas limits against an EIP-5656 model; all forks before Cancun for invalidity",
-		Rule: "(a) all frame trees with at most B actions in total, actions {TSTORE k v (k in {0,1}, v in {0,1,2}), TLOAD k, CALL/DELEGATECALL/STATICCALL into a child frame}, nesting <= 3, terminators {STOP, REVERT, INVALID}, x top-level entry {call, staticcall} x {single transaction, followed by a second transaction after Prepare}; full debug-tracer streams (stack shows every TLOAD result, gas shows the fee) equal to the reference. (b) MCOPY (dst, src, len) in a 16-value alphabet cubed x memory pre-size {0, 1, 3 words} x gas {ample, every limit in [used-12, used]} vs memmove + EIP gas formula. (c) bytes 0x5c/0x5d/0x5e on the 12 forks before Cancun, normal and static. non-trivial = distinct cases that executed a TSTORE or copied at least one byte",
+		Rule: "(a) all frame trees with at most B actions in total, actions {TSTORE k v (k in {0,1}, v in {0,1,2}), TLOAD k, CALL/DELEGATECALL/STATICCALL into a child frame}, nesting <= 3, terminators {STOP, REVERT, INVALID}, x top-level entry {call, staticcall} x {single transaction, followed by a second transaction after Prepare}; full debug-tracer streams (stack shows every TLOAD result, gas shows the fee) equal to the reference. (b) MCOPY (dst, src, len) in a 16-value alphabet cubed x memory pre-size {0, 1, 3 words} x gas {ample, every limit in [used-12, used]} vs memmove + EIP gas formula. (c) bytes 0x5c/0x5d/0x5e on the 12 forks before Cancun, normal and static, each time right after an EVM of the same fork that opted into EIPs 1153 and 5656 ran the same program. non-trivial = distinct cases that executed a TSTORE or copied at least one byte",
 		Assumptions: []string{"reference for transient storage is go-ethereum v1.12.0 with ExtraEips [1153] on Shanghai rules (opcodes 0xb3/0xb4)", "keys/values outside {0,1}/{0,1,2} and operand values outside the MCOPY alphabet are not covered"},
 		Bounds: func(t string) map[string]any {
 			return map[string]any{"action_budget": c15Budget(t), "max_depth": 3, "mcopy_alphabet": len(mcopyAlphabet)}
